@@ -315,10 +315,20 @@ pub fn run<W: Write>(out: &mut W, seed: u64, n: usize, opts: &HashMap<String, St
             let body: &[u8] = if rng.chance(50) { b"@@ -0,0 +1,1 @@\n+pwned\n" } else { b"@@ -1,1 +1,1 @@\n-sentinel\n+pwned\n" };
             let mut b = if rng.chance(30) { format!("diff --git {} {}\n--- {}\n+++ {}\n", o, nn, o, nn).into_bytes() } else { format!("--- {}\n+++ {}\n", o, nn).into_bytes() };
             b.extend_from_slice(body);
+            // git rename of an existing file to (or from) the unsafe name: both names are used then
+            let existing: Option<String> = ws.tree.iter().filter(|(p, e)| matches!(e, Entry::File(..)) && !p.starts_with(b"patches/") && p.as_slice() != b"series" && !p.starts_with(b".pc"))
+                .filter_map(|(p, _)| String::from_utf8(p.clone()).ok()).filter(|p| !p.contains(' ') && !p.contains('"') && !p.contains('\\')).next();
+            let rename_variant = existing.is_some() && !nm.starts_with('"') && !nm.is_empty() && rng.chance(30);
+            if let (true, Some(ex)) = (rename_variant, existing) {
+                let (from, to) = if rng.chance(80) { (ex.as_str(), nm) } else { (nm, ex.as_str()) };
+                b = format!("diff --git a/{} b/{}\nrename from {}\nrename to {}\n", from, to, from, to).into_bytes();
+                if rng.chance(50) { b.extend_from_slice(format!("--- a/{}\n+++ b/{}\n@@ -1,1 +1,1 @@\n-sentinel\n+pwned\n", from, to).as_bytes()); }
+            }
             if rng.chance(30) { if let Some(Entry::File(_, old)) = ws.tree.get(&format!("patches/{}", ws.names[i]).into_bytes()) { let mut c = old.clone(); c.extend_from_slice(&b); b = c; } }
             ws.tree.insert(format!("patches/{}", ws.names[i]).into_bytes(), Entry::File(0o644, b));
             // any strip level
-            let series: Vec<u8> = ws.names.iter().enumerate().map(|(j, n)| if j == i { format!("{} -p{}\n", n, rng.below(3)) } else { format!("{}\n", n) }).collect::<String>().into_bytes();
+            let strip = if rename_variant { 1 } else { rng.below(3) };
+            let series: Vec<u8> = ws.names.iter().enumerate().map(|(j, n)| if j == i { format!("{} -p{}\n", n, strip) } else { format!("{}\n", n) }).collect::<String>().into_bytes();
             ws.tree.insert(b"series".to_vec(), Entry::File(0o644, series));
         }
         if rng.chance(state) { mutate_state(&mut rng, &mut ws, ()); }
@@ -361,6 +371,9 @@ fn run_fault_case(tree: &Snap, inv: &[String], k: Option<usize>) -> (String, usi
     let mut args: Vec<String> = vec!["push".to_string(), "-d".to_string(), base.to_str().unwrap().to_string()];
     args.extend(inv.iter().cloned());
     crate::verif::fault_reset(k);
+    // content writes fail in the kernel (EFBIG), not in the hook: the error has to come through the
+    // buffered writers of the real code (VERIF_SIMULATED_WRITES=1: the hook returns the error itself)
+    crate::verif::fault_real_writes(std::env::var("VERIF_SIMULATED_WRITES").is_err());
     let r = std::panic::catch_unwind(|| crate::cmd::run(args.iter()));
     let (count, failed, _trace) = crate::verif::fault_report();
     crate::verif::fault_reset(None);
